@@ -50,12 +50,12 @@ func (k *Key) OptForms() []string {
 		return []string{"-"}
 	}
 	if len(k.Extra) > 0 && len(k.Params) == 0 {
-		return []string{"zero", "nilmap-explicit", "emptymap", "shared", "sharedopts", "sharedzero", "reused"}
+		return []string{"zero", "nilmap-explicit", "emptymap", "shared", "sharedopts", "sharedzero", "reused", "refilled"}
 	}
 	if len(k.Params) == 0 {
-		return []string{"pkgfunc", "nilopts", "zero", "nilmap-explicit", "emptymap", "shared", "sharedopts", "sharedzero", "reused"}
+		return []string{"pkgfunc", "nilopts", "zero", "nilmap-explicit", "emptymap", "shared", "sharedopts", "sharedzero", "reused", "refilled"}
 	}
-	return []string{"private", "shared", "sharedopts", "reused"}
+	return []string{"private", "shared", "sharedopts", "reused", "refilled"}
 }
 
 var paramSets = [][][2]string{
@@ -67,6 +67,11 @@ var paramSets = [][][2]string{
 	{{"T", "other_table"}, {"s", "'it''s'"}},
 	// many entries: map growth, iteration order, anything sized for "a few parameters"
 	{{"a", "$1"}, {"b", "$2"}, {"c", "$3"}, {"k", "$4"}, {"lim", "$5"}, {"m", "$6"}, {"n", "$7"}, {"s", "$8"}, {"x", "$9"}, {"y", "$10"}, {"z", "$11"}, {"total", "$12"}, {"cnt", "$13"}, {"State", "$14"}, {"EventType", "$15"}, {"p16", "$16"}, {"p17", "$17"}, {"p18", "$18"}},
+	// the same names as above with other values (a map changed without changing its size)
+	{{"x", "$2"}},
+	{{"n", "7"}, {"s", "'other'"}},
+	{{"lim", "20"}, {"x", "{y:Int64}"}, {"y", "$9"}},
+	{{"a", "col_b"}, {"k", "$3"}, {"x", "$2"}, {"y", "$1"}},
 	{{"x", ""}, {"y", " "}, {"n", "(1)"}, {"s", "'; --"}, {"lim", "n"}, {"a", "x"}, {"true", "false"}, {"null", "0"}, {"now", "then"}},
 }
 
